@@ -1,4 +1,5 @@
 import Typegen.ProjectSpec
+import Typegen.TablesExpected
 /-! # C07 — types.ts declares exactly the serde types reachable from the public surface
 
 `Gn.usedNames` mirrors `TypeCollector::collect_used_types` + `add_event_types`: seeds are the custom
@@ -127,5 +128,9 @@ theorem K07c_witness :
     shouldInclude [{ path := [cl!"derive"], isList := true, tokens := cl!"MySerializeLike", metaTokens := cl!"derive (MySerializeLike)" }] = true ∧
     Sp.specDerivesSerde [{ path := [cl!"derive"], isList := true, tokens := cl!"MySerializeLike", metaTokens := cl!"derive (MySerializeLike)" }] = false := by
   decide +kernel
+
+
+/-- the literals of `StructParser::should_include` (what counts as a serde type), re-read from the source on this run -/
+theorem C07_source_table_derive : Exp.litsOf "should_include" = Exp.shouldInclude := by decide
 
 end TG.C07
